@@ -133,6 +133,15 @@ def encodings(w, vec, dim):
     out.append(("pad-structural-zero", np.append(w, 0.0), np.vstack([vec, EXTRA[dim]]), None))
     out.append(("pad-explicit-zero", np.append(w, 0.0), np.vstack([vec, EXTRA[dim]]), "explicit"))
     out.append(("pad-front", np.insert(w, 0, 0.0), np.vstack([EXTRA[dim], vec]), None))
+    # many zero-weight points / many duplicates: problem sizes far from the reference size
+    far = np.array([[5.0 + 0.37 * k, -3.0 - 0.11 * k] + ([2.0 + 0.05 * k] if dim == 3 else []) for k in range(40)])
+    out.append(("pad-many", np.concatenate([w, np.zeros(40)]), np.vstack([vec, far]), None))
+    wm, vm = [], []
+    for j in range(len(w)):
+        for _ in range(12):
+            wm.append(w[j] / 12.0)
+            vm.append(vec[j])
+    out.append(("split-many", np.array(wm), np.array(vm), None))
     for perm in itertools.permutations(range(len(w))):
         if list(perm) == list(range(len(w))):
             continue
